@@ -10,6 +10,7 @@ from sa.loader import AnalysisError, Unsupported, dotted_name, norm_text
 from sa.members import has_dynamic_members, instance_members, self_attr
 from sa.poly import Rat, ToRat
 from sa.report import where
+from sa.util import backward_slice, local_assignments
 
 BDSK = 'torchtree.evolution.bdsk'
 BD = 'torchtree.evolution.birth_death'
@@ -649,6 +650,61 @@ def check_rho_alignment(ctx, rep):
         raise AnalysisError(f"only {n} rho paddings found")
 
 
+def method_name(call) -> str:
+    return (dotted_name(call.func) or (call.func.attr if isinstance(call.func, ast.Attribute) else '')).split('.')[-1]
+
+
+def check_tie_convention(ctx, rep):
+    """C09.B — a birth that falls exactly on an epoch boundary t_i is assigned to an epoch by `searchsorted(times, x, right=…)` and is counted (or not) among the lineages
+    that cross t_i by a comparison `x < t_i` / `x <= t_i`.  The two decide the same question and must agree: right=True puts the birth into the epoch that *starts* at t_i, so
+    it has not happened before t_i and the count must be strict; with right=False the count must be non-strict.  Disagreement counts the same event on both sides of
+    the boundary, so splitting an epoch at a node time changes the density."""
+    cls = ctx.classes.get('torchtree.evolution.bdsk.PiecewiseConstantBirthDeath')
+    fn = cls.resolve('log_prob')[1]
+    m = cls.module
+    W = where(m, fn)
+    # the variable whose epoch index looks lambda up: the births
+    births = None
+    for st in ast.walk(fn):
+        if isinstance(st, ast.Assign) and len(st.targets) == 1 and isinstance(st.targets[0], ast.Name):
+            for c in ast.walk(st.value):
+                if isinstance(c, ast.Call) and method_name(c) in ('searchsorted', 'bucketize') and len(c.args) >= 2 and isinstance(c.args[1 if method_name(c) == 'searchsorted' else 0], ast.Name):
+                    idx_name = st.targets[0].id
+                    var = c.args[1 if method_name(c) == 'searchsorted' else 0].id
+                    right = any(k.arg == 'right' and isinstance(k.value, ast.Constant) and k.value.value is True for k in c.keywords)
+                    uses_lambda = any(isinstance(g, ast.Call) and method_name(g) == 'gather' and 'lambda_' in ast.unparse(g.func) and any(isinstance(x, ast.Name) and x.id == idx_name for x in ast.walk(g))
+                                      for g in ast.walk(fn))
+                    if uses_lambda:
+                        births = (var, right, c)
+    if births is None:
+        rep.undecided('C09.B', 'PiecewiseConstantBirthDeath.log_prob::births-on-a-boundary', W, 'epoch index of the births (searchsorted whose result gathers lambda_) not found')
+        return
+    var, right, call = births
+    cmps = []
+    for c in ast.walk(fn):
+        if isinstance(c, ast.Compare) and len(c.ops) == 1 and isinstance(c.ops[0], (ast.Lt, ast.LtE, ast.Gt, ast.GtE)):
+            left_has = any(isinstance(x, ast.Name) and x.id == var for x in ast.walk(c.left))
+            right_has = any(isinstance(x, ast.Name) and x.id == var for x in ast.walk(c.comparators[0]))
+            other = c.comparators[0] if left_has else c.left
+            if (left_has != right_has) and any('times' in ast.unparse(e_) for e_ in backward_slice(other, local_assignments(fn))):
+                op = c.ops[0]
+                # normalise to `var OP boundary`
+                if right_has:
+                    op = {ast.Lt: ast.Gt, ast.LtE: ast.GtE, ast.Gt: ast.Lt, ast.GtE: ast.LtE}[type(op)]()
+                cmps.append((c, op))
+    if not cmps:
+        rep.undecided('C09.B', 'PiecewiseConstantBirthDeath.log_prob::births-on-a-boundary', W, f"no comparison of `{var}` with the epoch boundaries found")
+        return
+    for k, (c, op) in enumerate(cmps):
+        strict = isinstance(op, (ast.Lt, ast.Gt))
+        before = isinstance(op, (ast.Lt, ast.LtE))
+        ok = before and (strict == right)
+        rep.check('C09.B', f"PiecewiseConstantBirthDeath.log_prob::births-on-a-boundary#{k}", ok, where(m, c),
+                  {'epoch_index': norm_text(call)[:60], 'right': right, 'count': norm_text(c)[:60]},
+                  f"births are put into epochs with `{norm_text(call)[:50]}` (a birth exactly at t_i belongs to the epoch that {'starts' if right else 'ends'} at t_i) but counted "
+                  f"across the boundary with `{norm_text(c)[:50]}`: the two conventions disagree for a node exactly on a boundary, so refining the epochs at a node time changes the density")
+
+
 def run(ctx, rep):
     from sa import callbind
     callbind.run_for(ctx, rep, 'C09', 5)
@@ -670,10 +726,11 @@ def run(ctx, rep):
     rep.rule('C09.U', "every self.<member> read by the birth-death model classes resolves")
     rep.rule('C09.F', "constant and skyline models agree on log_q, A, last-epoch B and p, the first term, and on which parameters contribute direct log terms")
     rep.rule('C09.P', "evaluation is pure: no in-place update of a name that may alias stored state or an argument; no constructor snapshot of a parameter value used at evaluation")
+    rep.rule('C09.B', "the side on which a birth exactly at an epoch boundary falls is the same for its epoch index (searchsorted right=…) and for the count of lineages crossing the boundary (< / <=)")
     rep.rule('C09.R', "rho padded to one entry per epoch keeps the sampling probability last (zeros first)")
     rep.not_decided += ["epoch-refinement invariance", "boundary coincidences", "agreement with the master equations numerically"]
     for f, rule in ((check_options, 'C09.O'), (check_positional_options, 'C09.O'), (check_plumbing, 'C09.K'), (check_members, 'C09.U'), (check_formulas, 'C09.F'), (check_purity, 'C09.P'),
-                    (check_snapshots, 'C09.P'), (check_rho_alignment, 'C09.R')):
+                    (check_snapshots, 'C09.P'), (check_rho_alignment, 'C09.R'), (check_tie_convention, 'C09.B')):
         try:
             f(ctx, rep)
         except Unsupported as u:
